@@ -82,7 +82,9 @@ def run(ctx) -> None:
     ptasks = []
     for k, v in enumerate(progs):
         org = 0x008000 if k % 3 else 0x00FFFE   # some programs run across a bank end
-        ptasks.append({"items": v["items"], "tables": v["tables"], "org": org, "scope_style": "block" if k % 2 else "named"})
+        # the two table files swap their contents from one program to the next (one path, different tables, one process)
+        tabs = v["tables"] if (k // 2) % 2 == 0 else list(reversed(v["tables"]))
+        ptasks.append({"items": v["items"], "tables": tabs, "org": org, "scope_style": "block" if k % 2 else "named"})
     pres = pool.map("table_program", ptasks, timeout=60)
     for k, (t, o) in enumerate(zip(ptasks, pres)):
         if o.get("hang") or o.get("driver_error"):
